@@ -88,6 +88,9 @@ namespace rkcommon {
     size_t pos = filename.find_last_of('.');
     if (pos == std::string::npos)
       return "";
+    size_t sep = filename.find_last_of(path_sep);
+    if (sep != std::string::npos && pos < sep)
+      return "";
     return filename.substr(pos + 1);
   }
 
@@ -96,6 +99,9 @@ namespace rkcommon {
   {
     size_t pos = filename.find_last_of('.');
     if (pos == std::string::npos)
+      return filename;
+    size_t sep = filename.find_last_of(path_sep);
+    if (sep != std::string::npos && pos < sep)
       return filename;
     return filename.substr(0, pos);
   }
